@@ -24,11 +24,13 @@ def parse_complex_csv_line(
     if isinstance(line, str):
         CRLF = '\r\n'
         empty_field_value = ''
+        quote = '"'
         if isinstance(delimiter, bytes):
             delimiter = delimiter.decode("utf-8-sig")
     else:
         CRLF = b'\r\n'
         empty_field_value = b''
+        quote = b'"'
         if isinstance(delimiter, str):
             delimiter = delimiter.encode("utf-8")
 
@@ -45,7 +47,7 @@ def parse_complex_csv_line(
             flag_quotes_in_the_begining = flag_expect_delimiter_or_quotes = False
             field_value = empty_field_value
             continue  # skip delimiter
-        elif ch == '"':
+        elif ch == quote:
             if len(field_value) == 0 and not flag_quotes_in_the_begining:
                 flag_quotes_in_the_begining = True
                 continue  # skip " in the begining of the field
